@@ -1484,7 +1484,9 @@ udp_resolv_cb(void *arg)
 	}
 
 	udp_pipe_schedule(p);
-	udp_ep_start(ep);
+	if (!ep->started) {
+		udp_ep_start(ep);
+	}
 
 	// Send out the connection request.  We don't complete
 	// the user aio until we confirm a connection, so that
@@ -1509,12 +1511,13 @@ udp_ep_connect(void *arg, nni_aio *aio)
 		nni_aio_finish_error(aio, NNG_ECLOSED);
 		return;
 	}
-	if (ep->started) {
+	// A dialer has one connection at a time.  (Once that one is gone the
+	// same endpoint connects again: this is how a lost peer is redialed.)
+	if ((!nni_list_empty(&ep->connaios)) || (ep->peer_count != 0)) {
 		nni_mtx_unlock(&ep->mtx);
 		nni_aio_finish_error(aio, NNG_EBUSY);
 		return;
 	}
-	NNI_ASSERT(nni_list_empty(&ep->connaios));
 	ep->dialer = true;
 
 	nni_list_append(&ep->connaios, aio);
